@@ -121,6 +121,32 @@ def cases(rng, tier):
         if i % 3 == 0:
             pens = (30, 2, 2) if kind == "protein" else ((20, 1, 2) if ty in (0, 1) else (300, 20, 50))
         ka, kb = (1, 1) if i % 5 else (rng.randint(1, 3), rng.randint(1, 3))
+        if kind == "protein" and i % 4 == 2:
+            # ambiguity codes (B, Z, X) near the indels, and groups on both sides: the profile-profile kernel with all 23 residue codes
+            def amb(t):
+                t = list(t)
+                for _k in range(max(2, len(t) // 8)):
+                    t[rng.randrange(len(t))] = rng.choice("BZX")
+                return "".join(t)
+            pos = [k for k in range(min(len(a), len(b)))]
+            a2, b2 = list(a), list(b)
+            # the same letters at aligned positions: walk the planted path
+            ia = ib = 0
+            for c in p:
+                if c == 0:
+                    if rng.random() < 0.15:
+                        ch = rng.choice("BZ")
+                        a2[ia] = ch
+                        b2[ib] = ch if rng.random() < 0.7 else rng.choice("DNEQ")
+                    ia += 1
+                    ib += 1
+                elif c == 1:
+                    ib += 1
+                else:
+                    ia += 1
+            a, b = "".join(a2), "".join(b2)
+            ty = rng.choice([3, 5])
+            ka, kb = rng.randint(2, 3), rng.randint(2, 3)
         C.append(dict(id="q%d" % i, a=a, b=b, p=p, type=ty, pens=pens, ka=ka, kb=kb, kind=kind, threads=rng.choice([1, 4])))
     return C
 
